@@ -14,7 +14,7 @@ import sys
 import time
 
 VERIF = os.path.dirname(os.path.dirname(os.path.abspath(__file__)))
-REPO = "/repo"
+REPO = os.environ.get("UTCP_REPO", "/repo")
 
 
 def sh(cmd, cwd=None, timeout=1800):
@@ -40,7 +40,12 @@ def confirm(wt):
     rc1, o1 = sh(exe + " 2>&1 | tail -3", cwd=wt, timeout=300)
     rc1 = subprocess.run([exe], cwd=wt, stdout=subprocess.DEVNULL, stderr=subprocess.DEVNULL, timeout=300).returncode
     out["demo_with_change_rc"] = rc1
-    sh("git stash -q -- utcp abstract", cwd=wt)
+    # NB: never `git stash` here — the stash is shared by all worktrees of a repository
+    pf = os.path.join(wt, "OUT", "_confirm.patch")
+    rc, diff = sh("git diff -- utcp abstract", cwd=wt)
+    open(pf, "w").write(diff)
+    out["files_changed"] = re.findall(r"^diff --git a/(\S+)", diff, re.M)
+    sh("git apply -R %s" % pf, cwd=wt)
     try:
         sh("cmake --build _build 2>&1 | tail -1", cwd=wt)
         build_demo()
@@ -49,7 +54,8 @@ def confirm(wt):
         rc, o = sh("ctest --test-dir _build/test -j8 2>&1 | tail -4", cwd=wt)
         out["tests_without_change"] = "100% tests passed" in o
     finally:
-        sh("git stash pop -q", cwd=wt)
+        sh("git apply %s" % pf, cwd=wt)
+        os.remove(pf)
         sh("cmake --build _build 2>&1 | tail -1", cwd=wt)
     out["confirmed"] = bool(out["tests_with_change"] and out["demo_builds"] and out["demo_with_change_rc"] != 0 and out.get("demo_without_change_rc") == 0)
     return out
@@ -65,11 +71,11 @@ def run_check(prop, seed=1):
 
 
 def detect(patch, props):
-    rc, o = sh("git -C /repo status --porcelain -- utcp abstract")
+    rc, o = sh("git -C %s status --porcelain -- utcp abstract" % REPO)
     if o.strip():
         print("refusing: /repo has uncommitted changes:\n" + o)
         sys.exit(2)
-    rc, o = sh("git -C /repo apply %s" % patch)
+    rc, o = sh("git -C %s apply %s" % (REPO, patch))
     if rc != 0:
         print("patch does not apply: " + o)
         return None
@@ -83,13 +89,40 @@ def detect(patch, props):
                     kind = "no-failing-input-found" if viol[0].endswith("no-failing-input-found") else "WITNESS"
                 print("  %s rc=%d %s %.0fs" % (prop, rc, kind, dt), flush=True)
     finally:
-        sh("git -C /repo checkout -- .")
+        sh("git -C %s checkout -- ." % REPO)
     return res
+
+
+def store(wt, sid, change, needs):
+    """copy a confirmed change from its scratch worktree into seeded/<sid>/"""
+    import shutil
+    c = confirm(wt)
+    if not c["confirmed"]:
+        print("NOT CONFIRMED: " + json.dumps(c))
+        sys.exit(1)
+    d = os.path.join(VERIF, "seeded", sid)
+    os.makedirs(d, exist_ok=True)
+    rc, diff = sh("git diff -- utcp abstract", cwd=wt)
+    open(os.path.join(d, "patch.diff"), "w").write(diff)
+    demo = (glob.glob(os.path.join(wt, "OUT", "demo.cpp")) + glob.glob(os.path.join(wt, "OUT", "demo.c")))[0]
+    shutil.copy(demo, os.path.join(d, os.path.basename(demo)))
+    for r in ("README.md", "README.txt", "NOTES.md"):
+        if os.path.exists(os.path.join(wt, "OUT", r)):
+            shutil.copy(os.path.join(wt, "OUT", r), os.path.join(d, "README.agent.md"))
+    meta = {"id": sid, "breaks_property": sid.split("-")[0], "change": change, "needs_to_manifest": needs,
+            "written_by": "fresh sub-agent given only the property text, a note which mechanism an earlier change already used, and its own scratch worktree of /repo",
+            "confirmed_by_me": {"how": "python3 tools/seedtest.py confirm <worktree>: cmake --build + ctest (26/26 pass with the change), demo built against the changed libraries exits non-zero; git stash + rebuild: demo exits 0 and 26/26 pass", "result": "confirmed", "detail": c},
+            "files": {"patch": "patch.diff", "demonstration": os.path.basename(demo), "agent_notes": "README.agent.md"},
+            "detected_by": {}}
+    json.dump(meta, open(os.path.join(d, "meta.json"), "w"), indent=1)
+    print("stored " + d)
 
 
 if __name__ == "__main__":
     if sys.argv[1] == "confirm":
         print(json.dumps(confirm(sys.argv[2]), indent=1))
+    elif sys.argv[1] == "store":
+        store(sys.argv[2], sys.argv[3], sys.argv[4], sys.argv[5])
     else:
         props = sys.argv[3:] or ["C%02d" % i for i in range(1, 21)]
         r = detect(sys.argv[2], props)
